@@ -46,13 +46,7 @@ Theorem C03_cdx_every_node_exactly_once : forall d b, cdx_ser d = Ok b ->
   b_components b = map clear_auto (cdx_forest nl root) /\
   Permutation (flat_map refs (cdx_forest nl root)) (filter (fun i => negb (String.eqb i root)) (dedup (ids nl))) /\
   option_map c_ref (b_meta_comp b) = Some root.
-Proof.
-  intros d b H nl root Enl Er.
-  destruct (cdx_ser_shape d b H) as [md [nl' [_ [Enl' [[Er' _]|[root' [rn [Er' [_ [_ [Hto [Ec [_ Em]]]]]]]]]]]]];
-    rewrite Enl in Enl'; injection Enl' as <-; rewrite Er in Er'; [discriminate|injection Er' as <-].
-  split; [exact Ec|]. split; [|exact Em].
-  apply forest_exactly_once. intros e He Ht x Hx. exact (Hto e He (or_introl Ht) x Hx).
-Qed.
+Proof. exact cdx_every_node_once. Qed.
 Print Assumptions C03_cdx_every_node_exactly_once.
 
 (* nothing is nested that the document does not contain *)
@@ -60,13 +54,7 @@ Theorem C03_cdx_nesting_is_containment : forall d b, cdx_ser d = Ok b ->
   forall nl root p x, d_node_list d = Some nl -> nl_root_elements nl = [root] ->
   In (p, x) (flat_map pairs (cdx_forest nl root)) ->
   exists e, In e (nl_edges nl) /\ e_type e = Edge_Type_contains /\ e_from e = p /\ In x (e_to e).
-Proof.
-  intros d b H nl root p x Enl Er Hp.
-  destruct (cdx_ser_shape d b H) as [md [nl' [_ [Enl' [[Er' _]|[root' [rn [Er' [_ [_ [Hto _]]]]]]]]]]];
-    rewrite Enl in Enl'; injection Enl' as <-; rewrite Er in Er'; [discriminate|injection Er' as <-].
-  apply (forest_pairs_are_contains_edges nl root p x); [|exact Hp].
-  intros e He Ht y Hy. exact (Hto e He (or_introl Ht) y Hy).
-Qed.
+Proof. exact cdx_nesting_is_containment. Qed.
 Print Assumptions C03_cdx_nesting_is_containment.
 
 (* every dependency edge is in the dependency list, and the list names only nodes of the document
